@@ -39,7 +39,7 @@ class C12(Prop):
             "correlation) within an explicit float32 FFT error bound, and (integer data) exactly with the model after "
             "rounding. Non-trivial = length >= 3; distinct by (op, lengths, data kind).")
     assumptions = ["the transform pair itself (rocket-fft / pocketfft) is validated numerically, not proved"]
-    regimes_expected = ["rfft_ifft-even", "rfft_ifft-odd", "fftconvolve", "correlate", "mspec"]
+    regimes_expected = ["rfft_ifft-even", "rfft_ifft-odd", "rfft_ifft-padded-after-longer", "fftconvolve", "correlate", "mspec"]
     budget_s = (200, 1500)
 
     def gen(self, rng, tier):
@@ -48,6 +48,11 @@ class C12(Prop):
         for n in range(1, top + 1):
             cases.append({"op": "rfft_ifft", "n": n, "dkind": rng.choice(("int", "int", "const", "impulse", "dyn")),
                           "dseed": rng.randrange(1 << 30)})
+        # the same sweep downwards: a shorter series right after a longer one that pads to the same transform
+        # size (state kept between calls - scratch buffers, cached plans - must not leak into the result)
+        for n in range(top, 0, -1):
+            cases.append({"op": "rfft_ifft", "n": n, "dkind": rng.choice(("int", "const", "dyn")),
+                          "dseed": rng.randrange(1 << 30), "order": "descending"})
         for _ in range(150 if tier == "quick" else 1200):
             n = rng.choice((1, 2, 3, 7, 13, 16, 31, 45, 64, 100, 127, rng.randint(1, 300)))
             m = rng.choice((1, 2, 3, 5, n, rng.randint(1, n)))
@@ -192,6 +197,8 @@ class C12(Prop):
 
     def regime(self, case, obs):
         if case["op"] == "rfft_ifft":
+            if case.get("order") == "descending" and obs.get("N", 0) != case["n"]:
+                return "rfft_ifft-padded-after-longer"
             return "rfft_ifft-" + ("odd" if obs.get("N", 0) % 2 else "even")
         return case["op"]
 
@@ -199,7 +206,7 @@ class C12(Prop):
         return case["n"] >= 3
 
     def key(self, case):
-        return str((case["op"], case["n"], case.get("m"), case["dkind"]))
+        return str((case["op"], case["n"], case.get("m"), case["dkind"], case.get("order")))
 
 
 PROP = C12()
